@@ -134,6 +134,14 @@ CHECKS["C15"] = dict(
     note="Generated trees hold stub files (only the search is replayed there). 'Any style file' depends on directory order, the model allows each. Evidence lists which rules of each file matched (rule_match hook). Three known findings (hyphenated braille code, English zoom into a labelled row, lone block separator) are listed and their examples judged in every run.",
 )
 
+CHECKS["C03"] = dict(
+    category="model_checking",
+    technique="TLA+ model of the shift/reduce operator-precedence parser of canonicalize.rs (OpPrecOps.tla: find_operator, compute_type_from_position, determine_vertical_bar_op, is_nary, shift_stack, reduce_stack) model-checked by TLC on every token sequence up to a bound (OpPrec.tla: one frame at the end, re-bracketing, row invariants on well-formed rows); the sequences and seeded random rows over every operator of operator-info.in given to set_mathml at top level and inside 2-D constructs; TLC re-parses the tokens with the real dictionary chains and compares with the row structure of the canonical MathML, and evaluates the row invariants on these outputs and on every row of the canonical form of the suite expressions (Trace_OpPrec.tla)",
+    text="Design: for all 54 240 sequences of length <= 4 (quick) / 813 615 of length <= 5 (thorough) over {operand, = < + - x , ; not ! !! ( ) | unlisted}: the stack ends with one frame (refuted for the pinned commit: '| )' - the panic repaired in 0af20df), the leaves are the tokens in order, and for well-formed rows no adjacent operands, one priority per row, nested infix/postfix rows bind at least as tightly, fences enclose exactly their content (refuted when rows with an operator whose form depends on a following operator count as well formed - known finding). Implementation: the same sequences concretised with the real operators + 6 000 (quick) / 60 000 (thorough) seeded well-formed rows over the 1 209 dictionary operators canonicalization leaves as they are + 1 500 / 20 000 rows with vertical bars, in 6 contexts: the canonical row structure equals the model's parse (59 962 rows in quick); row invariants on those and on the 2 125 rows of the suite's canonical forms.",
+    design_ref="DESIGN.md section 5 C03",
+    note="The reference parse is the as-built algorithm with its tie rules made explicit. Rows with a function-name guess, a one-token parenthesis (chemistry state pre-pass) or merged double bars are outside the plain class (counted in the evidence). In suite rows only rows made by the parser (data-changed='added') are judged against priorities: the author's own mrows are kept as written. One known finding (form choice looks only at the next token) is listed and its examples judged in every run.",
+)
+
 NOT_YET = {}
 
 
